@@ -17,7 +17,7 @@ import copy, itertools, random
 import common, implrun, progfam, proglib, gen, gen_calls, gen_vec, wholelang, lang
 
 RULE = ("operator grid: `function f(L a, R b) -> T { return a OP b; }` for 13 operators x 14 x 14 spellable types (result type from the typing "
-        "rule); probes: constructors with right/wrong component counts, `T(x)` conversions, swizzles and indices on every primitive type, "
+        "rule); probes: ++/-- in every form on every type and on aggregates, constructors with right/wrong component counts, `T(x)` conversions, swizzles and indices on every primitive type, "
         "aggregates in calls and assignments; generated programs of all generators; 3 type-correct inputs per function. Non-trivial: the "
         "front end accepted the program and it was executed; distinct = distinct (source, optimisation, input)")
 EXHAUSTIVE = {"quick": False, "thorough": False}
@@ -110,6 +110,21 @@ def conv_probes():
                 ("function h(int i) -> int { int[4] t; t[i] = i; return t[i]; }\nexport function f(int a) -> int { return h(%s) + h(1); }" % k, dict(a="int")),
                 ("function h(int3 i, float4 v) -> float { return v[i.x] + v[i.z]; }\nexport function f(float4 v) -> float { return h(int3(%s, 0.0, 2.0), v); }" % k, dict(v="float4")),
                 ("export function f(float4x4 q) -> float { int i = 1; i = %s; return q[i][i]; }" % k, dict(q="float4x4"))]
+    return out
+
+
+def affix_probes():
+    """++ / -- (prefix and postfix, as a statement and as a value) on a parameter and on a local of every spellable type, and on
+    local arrays and structs"""
+    out = []
+    for t in TYPES:
+        for form in ("a++", "++a", "a--", "--a"):
+            out.append(("export function f(%s a) -> %s { %s; return a; }" % (t, t, form), dict(a=t)))
+            out.append(("export function f(%s a) -> %s { %s b = %s; return b; }" % (t, t, t, form), dict(a=t)))
+            out.append(("export function f(%s q) -> %s { %s a; %s; a = q; return a; }" % (t, t, t, form), dict(q=t)))
+    for decl in ("int[3] a", "float[2][2] a", "S a", "S[2] a"):
+        for form in ("a++", "--a"):
+            out.append(("struct S { int k; float w; }\nexport function f(int q) -> int { %s; %s; return q; }" % (decl, form), dict(q="int")))
     return out
 
 
@@ -259,6 +274,8 @@ def explore(run, scale=1):
         vals = [inf, -inf, nan, 1e308]
         ins = [{n: (v if t == "float" else [v, 1.0, 2.0] if t == "float3" else [1, 2, 3, 4]) for n, t in ptys.items()} for v in vals]
         run_probe(run, src, ptys, "nonfinite-cast", inputs=ins)
+    for src, ptys in affix_probes():
+        run_probe(run, src, ptys, "affix")
     sw = swizzle_probes()
     if run.tier != "thorough":
         sw = run.rng.sample(sw, 700 * scale)
